@@ -7,6 +7,7 @@ import ClaripyProofs.Lemmas.Solver.CompositeReabsorb
 import ClaripyProofs.Lemmas.Solver.CompositeKeep
 import ClaripyProofs.Lemmas.Solver.CompositeReplace
 import ClaripyProofs.Lemmas.Solver.CompositeExtrema
+import ClaripyProofs.Lemmas.Solver.CompositeExtraQueries
 /-!
 # C12 — SolverComposite answers like a monolithic solver
 
@@ -525,17 +526,166 @@ example : ∀ op ∈ cCompHist2, InScopeCH cR cRE OneName op := by
   · rfl
   · exact ⟨rfl, rfl, by decide, rfl, h1⟩
 
+/-! ### extra constraints: `satisfiable(extra_constraints)`, the value queries with extras, histories with extras everywhere -/
+
+/-- **`_reabsorb_solver(m)`: the invariant AND the frame facts** (`ReabsorbPost`): under the hypotheses of
+`C12_reabsorb_keeps_invariant`, afterwards the invariant holds for some partition `Us'`, the `_unsat` flag is still off, the merged
+child keeps its variables, a variable the merged child does not know keeps its entry of `_solvers`, and every child of the new
+partition that shares a variable with the merged child is implied by the merged constraints (both branches: `update` of the old
+children / the parts replace them) -/
+theorem C12_reabsorb_frames {E : Env} {R : Con → Prop} {RE : Exp → Prop} (H : SolverHyps R RE E)
+    (U : List Con) (Us : List (List Con)) (s : CSt) (m : Nat) (h : CInv R RE E U Us s) (hm : m < s.w.fes.length)
+    (hkeys : ∀ v ∈ (s.child m).variables, ∃ t, alGet? s.c.solvers v = some t)
+    (hsup : ∀ t ∈ s.c.solversFor (s.child m).variables, ∀ v ∈ (s.child t).variables, v ∈ (s.child m).variables)
+    (hsem : ∀ a, Models (Us.getD m []) a ↔ ∀ t ∈ s.c.solversFor (s.child m).variables, Models (Us.getD t []) a)
+    (hsat : ∀ t ∈ s.c.solversFor (s.child m).variables, Satisfiable (Us.getD t [])) (hun : s.c.unsat = false)
+    (s' : CSt) (hrun : reabsorb E m s = (.ok (), s')) : ∃ Us', ReabsorbPost R RE E U Us Us' s s' m :=
+  reabsorbFrames H U Us s m h hm hkeys hsup hsem hsat hun s' hrun
+
+/-- the loop of `check_satisfiability(extra)` over the unchecked children, those sharing a variable with the extra solver
+skipped: `True` means every listed live child that is not skipped is satisfiable, `False` that some child is not; the children's
+variables and the composite's record do not change along the loop -/
+theorem C12_check_loop_skip {E : Env} {R : Con → Prop} {RE : Exp → Prop} (H : SolverHyps R RE E) {U : List Con}
+    {Us : List (List Con)} (sv : List Var) (l : List Nat) (s : CSt) (h : CInv R RE E U Us s) :
+    match checkLoop E (some sv) l s with
+    | (.ok b, s') => CInv R RE E U Us s' ∧ s'.c = s.c ∧ (∀ i, (s'.child i).variables = (s.child i).variables) ∧
+        (b = true → ∀ j ∈ l, j ∈ s.c.solverList → (s.child j).variables.any sv.contains = false →
+          Satisfiable (Us.getD j [])) ∧
+        (b = false → ∃ j ∈ s.c.solverList, ¬ Satisfiable (Us.getD j []))
+    | (.error e, s') => IsGiveUp E e ∧ CInv R RE E U Us s' ∧ s'.c = s.c :=
+  checkLoop_skip_spec H (childFoot H) sv l s h
+
+/-- **`satisfiable(extra_constraints)` answers for everything added plus the extras** (any registered extras, in ANY state
+satisfying the invariant): the merged solver of the extras' names is asked under the extras, reabsorbed, the other unchecked
+children are asked one by one; the answer is exact for `U ++ extra` (or a child's backend gave up), and the invariant holds
+afterwards (for a possibly different partition: `_reabsorb_solver` may have replaced children by the parts of `split()`) -/
+theorem C12_satisfiable_extra_correct {E : Env} {R : Con → Prop} {RE : Exp → Prop} (H : SolverHyps R RE E) {U : List Con}
+    {Us : List (List Con)} {s : CSt} (h : CInv R RE E U Us s) (extra : List Con) (hex : ∀ c ∈ extra, R c) :
+    match compSatisfiable E extra s with
+    | (.ok b, s') => (b = true ↔ Satisfiable (U ++ extra)) ∧ ∃ Us', CInv R RE E U Us' s'
+    | (.error e, s') => IsGiveUp E e ∧ ∃ Us', CInv R RE E U Us' s' := by
+  by_cases hne : extra = []
+  · subst hne
+    have hs := compSatisfiable_spec H (childFoot H) h
+    revert hs
+    generalize compSatisfiable E [] s = res
+    obtain ⟨r, s'⟩ := res
+    cases r with
+    | ok b => exact fun hs => ⟨by rw [List.append_nil]; exact hs.1, Us, hs.2⟩
+    | error e => exact fun hs => ⟨hs.1, Us, hs.2⟩
+  · exact compSatisfiable_extra H h extra hne (fun c hc => H.reg.wf c (hex c hc))
+
+/-- **`eval(e, n, extra_constraints)`** in ANY state satisfying the invariant (registered symbolic expression, non-empty registered
+extras): `_ensure_sat(extra)`, the merged solver of the variables of `e` and of the extras, its answer under the extras,
+`_reabsorb_solver`: the answer `Judge` demands for everything added plus the extras; the invariant again -/
+theorem C12_eval_extra_correct {E : Env} {R : Con → Prop} {RE : Exp → Prop} (H : SolverHyps R RE E) {U : List Con}
+    {Us : List (List Con)} {s : CSt} (h : CInv R RE E U Us s) (e : Exp) (n : Nat) (extra : List Con) (hne : extra ≠ [])
+    (hex : ∀ c ∈ extra, R c) (he : RE e) (hc : e.conc = none) (hn : 1 ≤ n) :
+    JudgeOrGiveUp E U (.eval e n extra) (compStep E s (.eval e n extra)).1 ∧
+    ∃ Us', CInv R RE E U Us' (compStep E s (.eval e n extra)).2 :=
+  compEvalX_step H h e n extra hne (fun c hc' => H.reg.wf c (hex c hc')) he hc hn
+
+/-- **`batch_eval(es, n, extra_constraints)`**, likewise -/
+theorem C12_batch_eval_extra_correct {E : Env} {R : Con → Prop} {RE : Exp → Prop} (H : SolverHyps R RE E) {U : List Con}
+    {Us : List (List Con)} {s : CSt} (h : CInv R RE E U Us s) (es : List Exp) (n : Nat) (extra : List Con) (hne : extra ≠ [])
+    (hex : ∀ c ∈ extra, R c) (hnes : es ≠ []) (hes : ∀ e ∈ es, RE e ∧ e.conc = none) (hn : 1 ≤ n) :
+    JudgeOrGiveUp E U (.batchEval es n extra) (compStep E s (.batchEval es n extra)).1 ∧
+    ∃ Us', CInv R RE E U Us' (compStep E s (.batchEval es n extra)).2 :=
+  compBatchEvalX_step H h es n extra hne (fun c hc' => H.reg.wf c (hex c hc')) hnes hes hn
+
+/-- **`solution(e, x, extra_constraints)`**, likewise -/
+theorem C12_solution_extra_correct {E : Env} {R : Con → Prop} {RE : Exp → Prop} (H : SolverHyps R RE E) {U : List Con}
+    {Us : List (List Con)} {s : CSt} (h : CInv R RE E U Us s) (e : Exp) (x : Nat) (extra : List Con) (hne : extra ≠ [])
+    (hex : ∀ c ∈ extra, R c) (he : RE e) (hc : e.conc = none) (hx : x < 2 ^ e.bits) :
+    JudgeOrGiveUp E U (.solution e x extra) (compStep E s (.solution e x extra)).1 ∧
+    ∃ Us', CInv R RE E U Us' (compStep E s (.solution e x extra)).2 :=
+  compSolutionX_step H h e x extra hne (fun c hc' => H.reg.wf c (hex c hc')) he hc hx
+
+/-- **`max(e, extra_constraints)`**, likewise -/
+theorem C12_max_extra_correct {E : Env} {R : Con → Prop} {RE : Exp → Prop} (H : SolverHyps R RE E) {U : List Con}
+    {Us : List (List Con)} {s : CSt} (h : CInv R RE E U Us s) (e : Exp) (signed : Bool) (extra : List Con) (hne : extra ≠ [])
+    (hex : ∀ c ∈ extra, R c) (he : RE e) (hc : e.conc = none) :
+    JudgeOrGiveUp E U (.max e extra signed) (compStep E s (.max e extra signed)).1 ∧
+    ∃ Us', CInv R RE E U Us' (compStep E s (.max e extra signed)).2 :=
+  compMaxX_step H h e signed extra hne (fun c hc' => H.reg.wf c (hex c hc')) he hc
+
+/-- **`min(e, extra_constraints)`**, likewise -/
+theorem C12_min_extra_correct {E : Env} {R : Con → Prop} {RE : Exp → Prop} (H : SolverHyps R RE E) {U : List Con}
+    {Us : List (List Con)} {s : CSt} (h : CInv R RE E U Us s) (e : Exp) (signed : Bool) (extra : List Con) (hne : extra ≠ [])
+    (hex : ∀ c ∈ extra, R c) (he : RE e) (hc : e.conc = none) :
+    JudgeOrGiveUp E U (.min e extra signed) (compStep E s (.min e extra signed)).1 ∧
+    ∃ Us', CInv R RE E U Us' (compStep E s (.min e extra signed)).2 :=
+  compMinX_step H h e signed extra hne (fun c hc' => H.reg.wf c (hex c hc')) he hc
+
+/-- one call in ANY state satisfying the invariant, extras allowed on every query: right answer, invariant again -/
+theorem C12_call_correct_extras {E : Env} {R : Con → Prop} {RE : Exp → Prop} (H : SolverHyps R RE E)
+    {U : List Con} {Us : List (List Con)} {s : CSt} (h : CInv R RE E U Us s) (op : Op) (hop : InScopeCE R RE op) :
+    JudgeOrGiveUp E (usersAfter U op) op (compStep E s op).1 ∧ ∃ Us', CInv R RE E (usersAfter U op) Us' (compStep E s op).2 :=
+  comp_stepE H h op hop
+
+/-- **C12 for whole histories of CompositeFrontend, extra constraints everywhere**: ANY history of `add` / `satisfiable` / `eval` /
+`batch_eval` / `min` / `max` / `solution` / `is_true` / `is_false` on one composite, from the empty one, EVERY query with any
+registered extra constraints (registered symbolic expressions over ANY variables): EVERY answer of the model is the one `Judge`
+demands for all the constraints added so far plus the extras of the call (or an honest give-up of a child's backend).  No
+hypothesis besides `SolverHyps`.  Extends `C12_composite_history` (`InScopeCX.toCE`). -/
+theorem C12_composite_history_extras {E : Env} {R : Con → Prop} {RE : Exp → Prop} (H : SolverHyps R RE E) (track : Bool)
+    (hist : List Op) (hok : ∀ op ∈ hist, InScopeCE R RE op) :
+    ∀ x ∈ runComp E { c := { track := track }, w := { fes := [] } } [] hist, JudgeOrGiveUp E x.1 x.2.1 x.2.2 :=
+  comp_histE H hist _ [] [] (cinv_init R RE E track) hok
+
+/-- the bookkeeping invariant holds at the end of every such history (so: at every point of it) -/
+theorem C12_composite_history_extras_keeps_invariant {E : Env} {R : Con → Prop} {RE : Exp → Prop} (H : SolverHyps R RE E)
+    (track : Bool) (hist : List Op) (hok : ∀ op ∈ hist, InScopeCE R RE op) :
+    ∃ Us, CInv R RE E (usersAfterOps [] hist) Us (compRun E { c := { track := track }, w := { fes := [] } } hist) :=
+  comp_histE_inv H hist _ [] [] (cinv_init R RE E track) hok
+
+/-- non-vacuity: every history of `C12_composite_history` is in scope -/
+example (op : Op) (h : InScopeCX cR cRE op) : InScopeCE cR cRE op := h.toCE
+
+/-- non-vacuity, in the consistent environment of C11 (`cHyps`): extras on every kind of query, adds in between -/
+def cCompHistE : List Op :=
+  [.add [cCon], .satisfiable [cEq], .eval cExp 2 [cEq], .add [cEq], .max cExp [cCon] false, .min cExp [cEq] true,
+   .solution cExp 1 [cCon], .batchEval [cExp] 2 [cEq, cCon], .isTrue cCon [cEq], .satisfiable [cFalse], .eval cExp 1 [cFalse]]
+
+theorem cCompHistE_ok : ∀ op ∈ cCompHistE, InScopeCE cR cRE op := by
+  have hc : cR cCon := Or.inr (Or.inl rfl)
+  have hq : cR cEq := Or.inr (Or.inr (Or.inl rfl))
+  have hf : cR cFalse := Or.inl rfl
+  have h1 : ∀ c ∈ [cEq], cR c := fun c hc' => by simp at hc'; subst hc'; exact hq
+  have h2 : ∀ c ∈ [cCon], cR c := fun c hc' => by simp at hc'; subst hc'; exact hc
+  have h3 : ∀ c ∈ [cFalse], cR c := fun c hc' => by simp at hc'; subst hc'; exact hf
+  have h4 : ∀ c ∈ [cEq, cCon], cR c := fun c hc' => by
+    simp at hc'; rcases hc' with rfl | rfl
+    · exact hq
+    · exact hc
+  intro op hop
+  simp only [cCompHistE, List.mem_cons, List.not_mem_nil, or_false] at hop
+  rcases hop with rfl | rfl | rfl | rfl | rfl | rfl | rfl | rfl | rfl | rfl | rfl
+  · exact ⟨fun c hc' => by simp at hc'; subst hc'; exact hc, fun c hc' hv => by simp at hc'; subst hc'; simp [cCon] at hv⟩
+  · exact h1
+  · exact ⟨rfl, rfl, by decide, h1⟩
+  · exact ⟨fun c hc' => by simp at hc'; subst hc'; exact hq, fun c hc' hv => by simp at hc'; subst hc'; simp [cEq] at hv⟩
+  · exact ⟨rfl, rfl, h2⟩
+  · exact ⟨rfl, rfl, h1⟩
+  · exact ⟨rfl, rfl, by decide, h2⟩
+  · exact ⟨by simp, fun e he => by simp at he; subst he; exact ⟨rfl, rfl⟩, by decide, h4⟩
+  · trivial
+  · exact h3
+  · exact ⟨rfl, rfl, by decide, h3⟩
+
+example : ∀ x ∈ runComp cEnv { c := {}, w := { fes := [] } } [] cCompHistE, JudgeOrGiveUp cEnv x.1 x.2.1 x.2.2 :=
+  C12_composite_history_extras cHyps false cCompHistE cCompHistE_ok
+
 /-- **The full statement**: every history of public calls on a CompositeFrontend (hence, with the mixin layers of C11 on top, on
 a SolverComposite) is answered as the property statement demands for all the constraints added.  Proved: **`C12_composite_history`**
 — ANY history of add / satisfiable() / eval / batch_eval / min / max / solution (no extra constraints) / is_true / is_false (any
 extra constraints), expressions over any variables, is answered right at EVERY step, and the bookkeeping invariant `CInv` holds at every
-step (`C12_call_correct`, `C12_composite_history_keeps_invariant`); `combine` (`C12_combine_correct`), `split` / `update` /
+step (`C12_call_correct`, `C12_composite_history_keeps_invariant`); **`C12_composite_history_extras`** — the same with ANY registered
+extra constraints on EVERY query (`C12_satisfiable_extra_correct`, `C12_eval_extra_correct`, ..., `C12_call_correct_extras`,
+`C12_composite_history_extras_keeps_invariant`; `_reabsorb_solver` exports its frame facts: `C12_reabsorb_frames`); `combine` (`C12_combine_correct`), `split` / `update` /
 `_reabsorb_solver` (`C12_reabsorb_keeps_invariant`) are proved.  The invariant is the one the code maintains: the marker clauses of
 C11's `MCInv` hold under the guard the code uses (`C12_marker_guarded`; `C12_reabsorb_marker_without_model` is the record that made
 the old form false).  Missing:
-  * the value queries with EXTRA constraints: `_ensure_sat(extra)` = `check_satisfiability(extra)` puts the extras on the merged
-    solver of their names, reabsorbs it, and checks the other unchecked children (`checkLoop` with `skip`): `compSatisfiable_spec`
-    is proved for `extra = []` only; the query itself then needs `Equi` with extras on both sides;
   * `simplify` (a child's `variables` may keep a variable its constraints lost: `ExactVars` fails, see design_notes/C12.md),
     `branch` / pickling of the composite (children shared copy-on-write between composites);
   * the mixins of class SolverComposite above CompositeFrontend, CompositedCacheMixin among them. -/
